@@ -1,6 +1,9 @@
 import Juniper.Proofs.ParDoInv
 /-! Inductive invariants of the `parallel.Do` / `DoContext` LTS, part 2: simple state facts (after the
 return every worker is done; `Do` never sees a context; errgroup error implies a cancelled context). -/
+set_option linter.unusedSimpArgs false
+set_option linter.unusedVariables false
+
 namespace Juniper.Proofs.ParDo
 open Juniper.Gen Juniper.Model.ParDo
 
